@@ -16,8 +16,10 @@
      Dykstra sweep over nearest-point maps P_g onto C_g, whose increments sum up
      to x - x0, is the nearest point of the intersection of the C_g to x0.
 
-   NOT proved (here or anywhere): convergence of the iterates (Boyle-Dykstra
-   1986); it is an analytic limit theorem and is tested numerically. *)
+   NOT proved here: convergence of the iterates (Boyle-Dykstra 1986).  Its
+   quantitative core (boundedness, summable movement) is in
+   Proofs/DykstraBound.v; the existence of the limit is an analytic statement
+   and is tested numerically. *)
 From TFL Require Export Base.QNum.
 From Coq Require Import Permutation.
 Open Scope Q_scope.
